@@ -48,6 +48,11 @@ type FaultPlan struct {
 	K     int // the K-th call (1-based) of that kind fails
 	Count [NumDepKinds]int
 	Fired bool
+	// HitAddr/HitKey: the storage read that was failed (DepTrieRead)
+	HitAddr []byte
+	HitKey  string
+	// Reads counts storage reads per (address, key) while a read fault is planned
+	Reads map[string]int
 }
 
 // NewFaultPlan returns a plan that never fires.
@@ -56,6 +61,9 @@ func NewFaultPlan() *FaultPlan { return &FaultPlan{Kind: -1} }
 // Reset clears counters and sets the next fault point.
 func (f *FaultPlan) Reset(kind, k int) {
 	*f = FaultPlan{Kind: kind, K: k}
+	if kind == DepTrieRead {
+		f.Reads = map[string]int{}
+	}
 }
 
 func (f *FaultPlan) hit(kind int) bool {
@@ -305,7 +313,12 @@ func (h *Handle) IsInterfaceNil() bool        { return h == nil }
 
 // RetrieveValue implements vmcommon.AccountDataHandler (fail-soft read).
 func (h *Handle) RetrieveValue(key []byte) ([]byte, error) {
+	if h.store.Faults.Reads != nil {
+		h.store.Faults.Reads[string(h.addr)+"\x00"+string(key)]++
+	}
 	if h.store.Faults.hit(DepTrieRead) {
+		h.store.Faults.HitAddr = append([]byte{}, h.addr...)
+		h.store.Faults.HitKey = string(key)
 		return nil, ErrInjected
 	}
 	return h.st.Storage[string(key)], nil
